@@ -102,7 +102,7 @@ func isProtoField(sf reflect.StructField, cfg InstCfg) bool {
 	for ft.Kind() == reflect.Ptr {
 		ft = ft.Elem() // a pointer to a slice uses the slice's codec
 	}
-	if ft.Kind() != reflect.Slice || ft.Elem().Kind() == reflect.Uint8 || isScalarKind(ft.Elem()) {
+	if ft.Kind() != reflect.Slice || ft.Elem().Kind() == reflect.Uint8 || isPackedElem(ft.Elem()) {
 		return false
 	}
 	return opt == "proto" || cfg.ProtoArrays
